@@ -270,7 +270,7 @@ impl Property for C03 {
         "C03"
     }
     fn rule(&self) -> &'static str {
-        "proptest: (a) gateway with retention 0-3 or u64::MAX(-1) and 1-3 initial sets, history of <=8 (quick) / <=14 (thorough) rotation attempts, each = candidate (fresh well-formed set with boundary weights/thresholds; or one malformation: empty, adjacent equal keys (same, larger or smaller weight on the repeat), descending pair, all-zero first key, zero weight, weights summing past u128, threshold 0 / total+1; or a repeat of an installed set; or an installed set's signers under a new nonce, which is a different set) x proving set (latest, any installed, never installed, latest signing a different candidate, latest with only a suffix of its signers signing - just below / just reaching the threshold -, latest with one signer's entry listed and signed repeatedly up to the threshold while every other member is listed unsigned) x bypass x operator authorisation; (b) constructor cases with 0-4 such candidates. Oracle: well-formedness predicate from the statement, reference epoch/lookup model with independent set hashes, inverse-lookup invariant over every epoch and every hash ever attempted after each step, ledger-snapshot equality after every failure. non-trivial = a malformed or repeated candidate, or a non-latest proving set, occurs. A share of the random cases is an entry-point sweep (construction as described for C13: the exported functions of all shipped contracts read from the sources of the tree under test, a complete deployed system, pooled arguments - including well-formed signer sets nobody installed and proofs properly signed by the gateway's own signer set over digests that belong to no command -, every require_auth satisfied by the host's mock and recorded; entry points absent from the pinned inventory get 300 deterministic cases each); oracle: no call changes the epoch or emits signers_rotated since no valid proof for any rotation exists in these cases; non-trivial = the call succeeded"
+        "proptest: (a) gateway with retention 0-3 or u64::MAX(-1) and 1-3 initial sets, history of <=8 (quick) / <=14 (thorough) rotation attempts, each = candidate (fresh well-formed set with boundary weights/thresholds; or one malformation: empty, adjacent equal keys (same, larger or smaller weight on the repeat), descending pair, all-zero first key, zero weight, weights summing past u128, threshold 0 / total+1; or a repeat of an installed set; or an installed set's signers under a new nonce, which is a different set) x proving set (latest, any installed, never installed, latest signing a different candidate, latest with only a suffix of its signers signing - just below / just reaching the threshold -, latest with one signer's entry listed and signed repeatedly up to the threshold while every other member is listed unsigned) x bypass x operator authorisation; (b) constructor cases with 0-4 such candidates. Oracle: well-formedness predicate from the statement, reference epoch/lookup model with independent set hashes, inverse-lookup invariant over every epoch and every hash ever attempted after each step, ledger-snapshot equality after every failure. non-trivial = a malformed or repeated candidate, or a non-latest proving set, occurs. A share of the random cases is an entry-point sweep (construction as described for C13: the exported functions of all shipped contracts read from the sources of the tree under test, a complete deployed system, pooled arguments - including well-formed signer sets nobody installed and proofs properly signed by the gateway's own signer set over digests that belong to no command -, every require_auth satisfied by the host's mock and recorded; entry points absent from the pinned inventory get 300 deterministic cases each); oracle: no call changes the epoch or emits signers_rotated since no valid proof for any rotation exists in these cases; non-trivial = the call succeeded Since round 13 a candidate (or an initial set) may also be an otherwise well-formed set whose signers vector holds one more element that is no signer (a struct with a 64-bit weight, void, a number, a struct with a 31-byte key), built from raw values, hashed with the harness's own XDR writer and signed exactly like that: it must be refused."
     }
     fn assumptions(&self) -> Vec<&'static str> {
         vec!["a well-formed set whose first key is all-zero is not decided by the statement (Either)"]
